@@ -265,6 +265,8 @@ class Ctx:
         if k == "index":
             return rel[op[1]]
         if k == "chain":
+            if len(op) > 2 and op[2]:
+                return self.operand(rel, op[1]).chain(rel)
             return rel.chain(self.operand(rel, op[1]))
         if k == "join":
             other = self.operand(rel, op[1])
